@@ -43,6 +43,35 @@ def constructor_state(ck, rule):
     ck.check(good, rule, f, "a fresh all-False status record is installed unconditionally after the like/template copy and before sizing/storing",
              "status literal at top-level position %s, state copy at %s, first sizing/storing at %s" % (idx_stat, idx_copy, min(idx_store) if idx_store else None), f.node,
              "objects built with like=/template would inherit the template's raised flags (or keep sharing its record)")
+    # mode keywords (rounding=, overflow=, ...) are applied to the configuration the object ends up with: on every normal path the
+    # config.update(**kwargs) call follows the last replacement of self.config / self.__dict__ and precedes sizing/storing
+    n_upd = 0
+    seen_bad = set()
+    for pf in fpaths(prog, f):
+        if pf.end == "raise":
+            continue
+        upd = [i for i, (k, o) in enumerate(pf.order) if k == "call" and isinstance(o.raw.func, ast.Attribute) and o.raw.func.attr == "update"
+               and dotted(o.raw.func.value) == "self.config" and any(kk.arg is None for kk in o.raw.keywords)]
+        repl = [i for i, (k, o) in enumerate(pf.order) if k == "store" and o.path in ("self.config", "self.__dict__") and o.depth == 0]
+        first_use = [i for i, (k, o) in enumerate(pf.order) if k == "call" and isinstance(o.raw.func, ast.Attribute) and o.raw.func.attr in ("set_val", "resize", "_init_size")
+                     and dotted(o.raw.func.value) == "self"]
+        if not upd:
+            key = "none"
+            if key not in seen_bad:
+                seen_bad.add(key)
+                ck.bad(rule, f, "keyword arguments naming configuration fields reach the object's configuration (config.update(**kwargs)) on every path",
+                       "constructor path without config.update(**kwargs)", f.node, "rounding=/overflow=/... given to the constructor are ignored")
+            continue
+        n_upd += 1
+        if (repl and upd[-1] < repl[-1]) or (first_use and upd[-1] > first_use[0]):
+            key = "order"
+            if key not in seen_bad:
+                seen_bad.add(key)
+                ck.bad(rule, f, "the configuration keywords are applied after the like=/template/config= state is installed and before the value is sized and stored",
+                       "config.update(**kwargs) at order position %d, last replacement of the configuration at %s, first sizing/storing at %s" % (upd[-1], repl[-1] if repl else None, first_use[0] if first_use else None),
+                       pf.order[upd[-1]][1].stmt, "an explicit overflow='wrap' / rounding= is lost when like=, a template or config= replaces the configuration afterwards")
+    if n_upd and not seen_bad:
+        ck.ok(rule, f, "configuration keywords are applied to the final configuration on all %d normal paths" % n_upd)
     # Config constructor
     c = prog.func("objects.Config.__init__")
     for n in ast.walk(c.node):
@@ -211,3 +240,31 @@ def _validation_problems(test, vp, name):
         if lst is not None and lst.startswith("self._") and lst.endswith("_list") and lst != "self._%s_list" % name:
             probs.append("validated against %s instead of self._%s_list" % (lst, name))
     return probs
+
+
+def no_class_state_writes(ck, rule):
+    """C20.R7: no function stores into an attribute of a class object (Fxp.template = ..., type(self).x = ...): such a write changes the state
+    every later constructor call starts from (state leaking between unrelated objects)."""
+    prog = ck.prog
+    classes = {q.split(".")[1] for q in prog.classes}
+    n = 0
+    for f in prog.all_funcs():
+        for node in ast.walk(f.node):
+            tg = []
+            if isinstance(node, ast.Assign):
+                tg = node.targets
+            elif isinstance(node, (ast.AugAssign, ast.AnnAssign)):
+                tg = [node.target]
+            elif isinstance(node, ast.Call) and dotted(node.func) == "setattr" and node.args:
+                base = node.args[0]
+                if dotted(base) in classes or dotted(base) in ("self.__class__", "cls") or (isinstance(base, ast.Call) and dotted(base.func) == "type"):
+                    ck.bad(rule, f, "no function writes class-level state", "setattr(%s, ...)" % src(base)[:40], node, "state shared by all objects is changed by one call")
+            for t in tg:
+                for tt in (t.elts if isinstance(t, (ast.Tuple, ast.List)) else [t]):
+                    if isinstance(tt, ast.Attribute):
+                        n += 1
+                        base = tt.value
+                        if dotted(base) in classes or dotted(base) in ("self.__class__", "cls") or (isinstance(base, ast.Call) and dotted(base.func) == "type"):
+                            ck.bad(rule, f, "no function writes class-level state", "%s = ..." % src(tt)[:50], node,
+                                   "a later, unrelated constructor call starts from the value written here (e.g. every new object copies a leftover template)")
+    ck.ok(rule, "fxpmath package", "%d attribute stores examined: none targets a class object" % n, nontrivial=False)
